@@ -200,16 +200,22 @@ impl Preprocessor {
         desc: IncludeDesc,
     ) -> Result<(), CompileErr> {
         let name_string = decode_string(&desc.name);
-        // Terminate early checking anything with a processed include type.
-        if KNOWN_DIALECTS.contains_key(&name_string) || desc.kind.is_some() {
+        if KNOWN_DIALECTS.contains_key(&name_string) {
             return Ok(());
         }
 
+        // An embedded file (embed-file ... bin/hex/sexp) is read by the compiler
+        // just like an included one, so it is a dependency too; its contents are
+        // data and are not searched for further includes.
+        let is_embedded_data = desc.kind.is_some();
         let (full_name, content) = self.opts.read_new_file(self.opts.filename(), name_string)?;
         includes.push(IncludeDesc {
             name: full_name.as_bytes().to_vec(),
             ..desc
         });
+        if is_embedded_data {
+            return Ok(());
+        }
 
         let parsed = parse_sexp(Srcloc::start(&full_name), content.iter().copied())
             .map_err(|e| CompileErr(e.0, e.1))?;
